@@ -11,6 +11,7 @@
  *        either a plane sample at the expected place or an untouched canary.
  *   errs fn w a h s     unified function fn (0 CompressFromYUV8, 1 EncodeYUV8, 3 DecodeYUV8) with
  *        out-of-range geometry: must fail cleanly (prints rc).
+ *   fp enc|dtp stridesNULL st0 st1 st2 w h s sfi   written-byte footprint of a per-plane function (also ml/C20_driver.ml)
  *   seq seed a n (w h s q sfi hdr) x n   legacy (TurboJPEG 2.x) entry points on reused handles, see do_seq
  *   cmp seed w h s q sfi a pf ex0 ex1 ex2 flags [fam script]
  *        composition clauses on a random JPEG (see do_compose).  Without fam: source = tj3Compress8 output.
@@ -707,6 +708,83 @@ out:
   tjDestroy(hD); tjDestroy(hC);
 }
 
+/* ---------------------------------------------------------------- fp: footprint of the bytes a per-plane function writes
+ * fp enc|dtp stridesNULL st0 st1 st2 w h s sfi
+ * Each plane is a buffer of exactly |e|*(ph-1)+pw bytes (e = effective row step) between guards, the plane pointer at
+ * its lowest or (negative stride) highest row.  The call is made twice with two canary fills that differ everywhere; a
+ * byte counts as written when it differs from the canary in either run.  Output per plane: number of written bytes,
+ * lowest and highest offset relative to the plane pointer, hash of the sorted offsets (same as ml/C20_driver.ml). */
+static unsigned char canary2(size_t pos) { return (unsigned char)(0x35 + (pos % 11)); }
+static void do_fp(char *p)
+{
+  char fn[8]; int snull, st[3], w, h, s, sfi, nsf = 0, i, run, nc, sw, sh, pw[3], ph[3], e[3]; tjscalingfactor *sfs = tj3GetScalingFactors(&nsf);
+  unsigned char *buf[3][2] = { { 0 } }, *rgb = NULL, *jpg = NULL, *planes[3]; size_t sz[3] = { 0, 0, 0 }, jsz = 0, k; tjhandle hc = NULL, hd = NULL;
+  int strides[3], rc = 0, bad = 0; char out[600]; size_t ol = 0;
+  if (sscanf(p, "%7s %d %d %d %d %d %d %d %d", fn, &snull, &st[0], &st[1], &st[2], &w, &h, &s, &sfi) != 9 || sfi < 0 || sfi >= nsf) { printf("fp badline\n"); return; }
+  nc = s == TJSAMP_GRAY ? 1 : 3;
+  rgb = (unsigned char *)malloc((size_t)w * h * 3); rs = 12345 + w * 131 + h; gen_image(rgb, w, h, 3, w * 3, 1);
+  hc = tj3Init(TJINIT_COMPRESS); hd = tj3Init(TJINIT_DECOMPRESS);
+  tj3Set(hc, TJPARAM_SUBSAMP, s); tj3Set(hc, TJPARAM_QUALITY, 80);
+  if (!strcmp(fn, "dtp")) {
+    if (tj3Compress8(hc, rgb, w, 0, h, TJPF_RGB, &jpg, &jsz) < 0) { printf("fp setup-failed\n"); goto out; }
+    sw = TJSCALED(w, sfs[sfi]); sh = TJSCALED(h, sfs[sfi]); tj3SetScalingFactor(hd, sfs[sfi]);
+  } else { sw = w; sh = h; }
+  for (i = 0; i < 3; i++) {
+    pw[i] = tj3YUVPlaneWidth(i, sw, s); ph[i] = tj3YUVPlaneHeight(i, sh, s);
+    e[i] = (!snull && st[i] != 0) ? st[i] : pw[i]; strides[i] = st[i];
+    if (i < nc) { sz[i] = (size_t)abs(e[i]) * (ph[i] - 1) + pw[i]; if (sz[i] != tj3YUVPlaneSize(i, sw, snull ? 0 : st[i], sh, s)) bad = 1; }
+  }
+  for (run = 0; run < 2 && rc == 0; run++) {
+    for (i = 0; i < 3; i++) {
+      planes[i] = NULL;
+      if (i >= nc) continue;
+      buf[i][run] = (unsigned char *)malloc(sz[i] + 2 * GUARD);
+      for (k = 0; k < sz[i] + 2 * GUARD; k++) buf[i][run][k] = run ? canary2(k) : canary(k);
+      planes[i] = buf[i][run] + GUARD + (e[i] < 0 ? (size_t)(-e[i]) * (ph[i] - 1) : 0);
+    }
+    if (!strcmp(fn, "enc")) rc = tj3EncodeYUVPlanes8(hc, rgb, w, 0, h, TJPF_RGB, planes, snull ? NULL : strides);
+    else rc = tj3DecompressToYUVPlanes8(hd, jpg, jsz, planes, snull ? NULL : strides);
+  }
+  if (rc < 0) { printf("fp call-failed %s\n", tj3GetErrorStr(!strcmp(fn, "enc") ? hc : hd)); goto out; }
+  ol += snprintf(out + ol, sizeof(out) - ol, "fp %s", fn);
+  for (i = 0; i < nc; i++) {
+    long long base = GUARD + (e[i] < 0 ? (long long)(-e[i]) * (ph[i] - 1) : 0), lo = 0, hi = 0, n = 0; unsigned long long hsh = 7;
+    for (k = 0; k < sz[i] + 2 * GUARD; k++) {
+      int wr = buf[i][0][k] != canary(k) || buf[i][1][k] != canary2(k);
+      if (!wr) continue;
+      if (k < GUARD || k >= GUARD + sz[i]) bad = 2;
+      if (!n) lo = (long long)k - base;
+      hi = (long long)k - base; n++;
+      hsh = (hsh * 1000003ULL + (unsigned long long)((long long)k - base + (1LL << 40))) % 2147483629ULL;
+    }
+    ol += snprintf(out + ol, sizeof(out) - ol, " | %lld %lld %lld %llu", n, lo, hi, hsh);
+  }
+  if (!strcmp(fn, "dtp")) {
+    /* what libjpeg derives for this JPEG and scaling factor */
+    struct jpeg_decompress_struct d; struct my_err er; int tmp = 0;
+    d.err = jpeg_std_error(&er.pub); er.pub.error_exit = my_exit; er.pub.emit_message = my_emit;
+    jpeg_create_decompress(&d);
+    if (!setjmp(er.jb)) {
+      jpeg_mem_src(&d, jpg, (unsigned long)jsz); jpeg_read_header(&d, TRUE);
+      d.scale_num = sfs[sfi].num; d.scale_denom = sfs[sfi].denom; jpeg_calc_output_dimensions(&d);
+      ol += snprintf(out + ol, sizeof(out) - ol, " | lj");
+      for (i = 0; i < d.num_components; i++) {
+        int dct = 8 * sfs[sfi].num / sfs[sfi].denom;
+        ol += snprintf(out + ol, sizeof(out) - ol, " %u %u", d.comp_info[i].width_in_blocks, d.comp_info[i].height_in_blocks);
+        if ((int)d.comp_info[i].width_in_blocks * dct != pw[i] || (int)d.comp_info[i].height_in_blocks * dct != ph[i]) tmp = 1;
+      }
+      ol += snprintf(out + ol, sizeof(out) - ol, " %u %u %s", d.output_width, d.output_height, tmp ? "tmp" : "direct");
+    }
+    jpeg_destroy_decompress(&d);
+  }
+  if (bad == 1) printf("fp FAIL tj3YUVPlaneSize differs from |stride|*(ph-1)+pw\n");
+  else if (bad == 2) printf("fp FAIL a byte outside the tj3YUVPlaneSize extent of a plane was written ; %s\n", out);
+  else printf("%s\n", out);
+out:
+  for (i = 0; i < 3; i++) { free(buf[i][0]); free(buf[i][1]); }
+  free(rgb); tj3Free(jpg); tj3Destroy(hc); tj3Destroy(hd);
+}
+
 /* gs yh yv bh bv rh rv: level reported by the TurboJPEG API for a YCbCr JPEG with these sampling factors */
 static void do_gs(char *p)
 {
@@ -749,6 +827,7 @@ int main(void)
     if (!strcmp(cmd, "errs")) { do_errs(p); continue; }
     if (!strcmp(cmd, "gs")) { do_gs(p); continue; }
     if (!strcmp(cmd, "seq")) { do_seq(p); continue; }
+    if (!strcmp(cmd, "fp")) { do_fp(p); continue; }
     { char *q = p; while (n < 8) { char *e; long x = strtol(q, &e, 10); if (e == q) break; v[n++] = x; q = e; } }
     if (!strcmp(cmd, "pw") && n == 3) printf("pw %d\n", tj3YUVPlaneWidth((int)v[0], (int)v[1], (int)v[2]));
     else if (!strcmp(cmd, "ph") && n == 3) printf("ph %d\n", tj3YUVPlaneHeight((int)v[0], (int)v[1], (int)v[2]));
